@@ -136,6 +136,37 @@ theorem stabilised_history (cfg : Cfg) (e0 : α) (pre post : List (Op α)) (s₂
     have := eventual_reload cfg e0 pre post s₁ s₂ h₁ h hw hl
     exact ⟨this.1, this.2.2⟩
 
+/-! ### "changed" is a function of the content only -/
+
+/-- The reload decision is independent of file metadata: whatever inode, size and modification time the
+    environment leaves behind (new ones, or an earlier mtime restored after a same-length rewrite), and whatever
+    metadata-only operations are interleaved, the loop — state, pending debounce, callback log — evolves exactly
+    as on the history with the metadata erased.  Every theorem above therefore holds for such histories; in
+    particular a rewrite that keeps (inode, size, mtime) is reloaded like any other change. -/
+theorem reload_decision_ignores_metadata {μ : Type} (v : Variant) (cfg : Cfg) :
+    ∀ (ops : List (MOp α μ)) (s : St α) (m : μ),
+      (runM? v cfg s m ops).map (·.1) = run? v cfg s (eraseMeta ops)
+  | [], s, m => rfl
+  | .write c m' :: r, s, m => by
+    simp only [runM?, stepM?, eraseMeta, run?, step?, Option.map_some]
+    exact reload_decision_ignores_metadata v cfg r _ m'
+  | .touch m' :: r, s, m => by
+    simp only [runM?, stepM?, eraseMeta]
+    exact reload_decision_ignores_metadata v cfg r s m'
+  | .loop o :: r, s, m => by
+    simp only [runM?, stepM?, eraseMeta, run?]
+    cases hs : step? v cfg s o with
+    | none => simp
+    | some s' => simp only [Option.map_some]; exact reload_decision_ignores_metadata v cfg r s' m
+
+/-- a same-length rewrite with the old mtime restored (metadata `m` before and after), notification delivered:
+    reloaded exactly like a rewrite that changes the metadata -/
+example : (runM? .repaired ⟨250, 100⟩ (init ⟨250, 100⟩ 0) (7 : Nat)
+      [.write 1 7, .loop .event, .loop (.wait 100), .loop .fire]).map (fun p => seen p.1) = some [1] ∧
+    (runM? .repaired ⟨250, 100⟩ (init ⟨250, 100⟩ 0) (7 : Nat)
+      [.write 1 8, .loop .event, .loop (.wait 100), .loop .fire]).map (fun p => seen p.1) = some [1] := by
+  constructor <;> decide
+
 /-- With gate's constants the bound is 350 ms. -/
 theorem default_bound : defaultCfg.R + defaultCfg.D = 350 := by decide
 
